@@ -3,6 +3,7 @@
   IPA have their own files).
 -/
 import PCV.Proofs.MarlinMore
+import PCV.Proofs.MarlinBound
 import PCV.Props.C01_Marlin
 
 set_option linter.unusedSectionVars false
@@ -88,5 +89,47 @@ example : commitOne C01.exCK ⟨[112], [1, 2, 3], some 1, none⟩ false [] = .er
   decide
 example : accumulate C01.exVK [⟨[112], ⟨43, none⟩, some 2⟩] [(1 : K)] [11, 13] = .error .abort := by
   decide
+
+/-- **"Accepted only if produced for a polynomial of degree ≤ d" — the reduction, step 1.**
+An algebraic committer/prover (commitment `g·p(β)`, shifted part `g·q(β)`, witness `g·a(β)`, all
+built from the published powers) whose degree-bounded commitment is accepted under the bound `d`
+has made the trapdoor a root of the explicit polynomial
+`ξ·(p − v) + ξ′·(q − v·X^(D−d)) − a·(X − z)`. -/
+theorem marlin_bound_forgery_root {ck : CK F} {vk : VK F} {g γ β h : F} {D n m : Nat}
+    (hwf : WF ck vk g γ β h D n m) (bs : List Nat) (hbs : ck.bounds = some bs) (d : Nat) (hd : d ∈ bs)
+    (hg : g ≠ 0) (hh : h ≠ 0) (l : Label) (p q a : List F) (z v ξ ξ' : F) (ξs : List F)
+    (hacc : check vk [⟨l, ⟨g * evalPoly p β, some (g * evalPoly q β)⟩, some d⟩] z [v]
+      ⟨g * evalPoly a β, none⟩ (ξ :: ξ' :: ξs) = .ok (true, ξs)) :
+    evalPoly (boundExtract p q a z v ξ ξ' (D - d)) β = 0 :=
+  bounded_check_root vk g γ β h D d hwf.vkeq (hwf.shifts bs hbs d hd) hg hh l p q a z v ξ ξ' ξs hacc
+
+/-- **Step 2: that polynomial is not zero.**  If `p` really exceeds the bound (a non-zero
+coefficient above `d`) then — whatever `q` with at most `D+1` coefficients the committer chose
+beforehand — for all but at most `max(|q|, D−d+|p|) − 1` challenge points `z`, and for every claimed
+value `v`, the value of the extraction polynomial at `z` is `ξ·A + ξ′·B` with `(A, B) ≠ (0, 0)`: it
+vanishes for at most one ratio of the two later challenges, otherwise the forger holds a non-zero
+polynomial with the trapdoor as a root (the scheme's hardness problem).  Hence a commitment accepted
+under the bound `d` was produced for a polynomial of degree at most `d`. -/
+theorem marlin_degree_bound_sound (p q : List F) (D d : Nat) (hd : d ≤ D) (hq : q.length ≤ D + 1)
+    (hp : ∃ i, d < i ∧ coeff p i ≠ 0) :
+    ∃ S : Finset F, S.card ≤ max q.length (D - d + p.length) - 1 ∧
+      ∀ z, z ∉ S → ∀ (v ξ ξ' : F) (a : List F),
+        evalPoly (boundExtract p q a z v ξ ξ' (D - d)) z
+          = ξ * (evalPoly p z - v) + ξ' * (evalPoly q z - v * fpow z (D - d)) ∧
+        ¬ (evalPoly p z - v = 0 ∧ evalPoly q z - v * fpow z (D - d) = 0) := by
+  obtain ⟨S, hcard, hS⟩ := DegreeBound.bound_violation_few_points q p D d hd hq hp
+  refine ⟨S, hcard, ?_⟩
+  intro z hz v ξ ξ' a
+  refine ⟨by rw [eval_boundExtract]; ring, ?_⟩
+  rintro ⟨h1, h2⟩
+  apply hS z hz
+  have hv : v = evalPoly p z := (sub_eq_zero.1 h1).symm
+  rw [hv] at h2
+  linear_combination h2
+
+/-- non-vacuity: `p = 1 + 2X + 3X²` presented under the bound 1 with `D = 3` (`k = 2`): whatever
+`q` of four coefficients is used, e.g. `q = X²·(1 + 2X)`, the relation `q(z) = z²·p(z)` fails at `z = 5` -/
+example : evalPoly ([0, 0, 1, 2] : List K) 5 ≠ fpow 5 2 * evalPoly [1, 2, 3] 5 ∧
+    coeff ([1, 2, 3] : List K) 2 ≠ 0 := by decide
 
 end PCV.C04
